@@ -1,5 +1,19 @@
 (* C19 — Splines interpolate and are equivariant; APE/RPE statistics and invariances; geodesic loss.
-   Statements only (over R); proofs in Proofs/Spline.v and Proofs/Metric.v.
+   Statements only (over R); proofs in Proofs/Spline.v, Proofs/Metric.v and (part 2, below the first
+   block of Print Assumptions) Proofs/Spline2-4.v, Proofs/Metric2-6.v.
+   Part 2 states the bspline clauses on SE3 ITSELF ([bspline_SE3], the instance pypose uses; SE3 as
+   modelled satisfies the abstract group / Exp-Log laws only on unit quaternions and outside the Taylor
+   and angle-pi regimes of Exp / Log, so the abstract theorems do not apply to it as they stand), the
+   sample count k for every real interval, "is the rotation angle" for every pair of rotations, the
+   order of the statistics on every ape / rpe output, rpe invariance with origin alignment, and that
+   rpe of a trajectory against itself does return; it replaces the alignment-invariance contract of
+   part 1 (unsatisfiable for S <> identity, see C19_ape_align_unguarded_contract_forces_identity) by a
+   guarded one, proves the exact-copy case of alignment invariance with the svdstf model of C17, and
+   records that the zero-statistics clause fails for repeated time stamps.
+   Still decided by the tie only: bspline on SE3 when a relative pose or weighted increment falls in the
+   Taylor (angle <= eps) or angle-pi regime of Exp / Log (the model is then only eps-close to a group);
+   alignment invariance of ape for noisy estimates (needs uniqueness of Umeyama's solution) and for the
+   rotation-type errors of exact copies; distance pairing of rpe returning; IEEE rounding.
 
    chspline: [chspline1 k q ys] is one scalar column of pp.chspline(points, interval = q); k is the
    number of samples per unit interval (torch.arange(0,1,q).shape[0]); [chs_kq k q] says that these
@@ -12,7 +26,9 @@
 From Coq Require Import Reals List ZArith Lra Lia.
 Import ListNotations.
 From PV Require Import Base.Num Model.LieGroup Model.LieExp Model.LieLog Model.Spline Model.Metric
-  Proofs.LieGroup Proofs.LieLog Proofs.Spline Proofs.Metric.
+  Proofs.LieGroup Proofs.LieLog Proofs.Spline Proofs.Metric
+  Proofs.Spline2 Proofs.Spline3 Proofs.Spline4 Proofs.Spline5 Proofs.Metric2 Proofs.Metric3 Proofs.Metric4 Proofs.Metric5 Proofs.Metric6
+  Model.Controller Model.Align Proofs.Align Proofs.Metric7 Proofs.Metric8.
 Local Open Scope R_scope.
 #[local] Remove Hints NumQ NumZ : typeclass_instances.
 
@@ -127,7 +143,10 @@ Proof. intros. eapply rpe_identical_zero; eauto using angle_of_id, rad2deg_0. Qe
 (* partial (T2): ape with align (and scale) is unchanged by a similarity S applied to the estimate,
    GIVEN the contract of the SVD oracle (unit quaternion result; transforming the source cloud by S
    composes the solution with S^-1).  Missing: the contract itself (uniqueness of Umeyama's
-   solution), which belongs to C17. *)
+   solution), which belongs to C17.
+   CAUTION (found in the audit): as stated here the contract quantifies over the empty cloud too and
+   therefore forces S = identity (C19_ape_align_unguarded_contract_forces_identity below); the
+   statement with a satisfiable contract is C19_ape_align_invariant_guarded_partial. *)
 Theorem C19_ape_align_invariant_partial : forall angleF rad2degF svdstf (S : sim3R) (sc : bool),
   valid_Sim3 S ->
   (forall ets rts, unitq (fst (snd (svdstf ets rts sc)))) ->
@@ -175,3 +194,294 @@ Print Assumptions C19_stats_order. Print Assumptions C19_rpe_left_invariant.
 Print Assumptions C19_ape_identical_zero. Print Assumptions C19_rpe_identical_zero.
 Print Assumptions C19_ape_align_invariant_partial. Print Assumptions C19_geodesic_range_symmetric.
 Print Assumptions C19_geodesic_is_rotation_angle.
+
+
+(* ====================================================================================== part 2 *)
+(* ------------------------------------------------------------------ chspline: k for every interval *)
+(* for every real interval q in (0,1) there is exactly one k = number of multiples j q in [0,1); it
+   satisfies chs_kq (the hypothesis of the chspline theorems above) and k q >= 1 *)
+Theorem C19_chspline_k_exists_unique : forall q : R, 0 < q -> q < 1 ->
+  exists k, chs_kq k q /\ 1 <= INR k * q /\ (forall j : nat, INR j * q < 1 <-> (j < k)%nat) /\
+            (forall k', (forall j : nat, INR j * q < 1 <-> (j < k')%nat) -> k' = k).
+Proof.
+  intros q H0 H1. destruct (sample_count_exists q H0 H1) as (k & Hkq & Hk1 & Hk). exists k.
+  repeat (split; [assumption|]). intros k' Hk'. exact (sample_count_unique k' k q Hk' Hk).
+Qed.
+(* (N-1) k + 1 samples with k = the number of multiples of the interval in [0,1): every real interval *)
+Theorem C19_chspline_count_every_interval : forall (q : R) (ys : list R), 0 < q -> q < 1 -> (2 <= length ys)%nat ->
+  exists k out, (forall j : nat, INR j * q < 1 <-> (j < k)%nat) /\
+                chspline1 k q ys = Some out /\ length out = ((length ys - 1) * k + 1)%nat.
+Proof. exact chspline_count_every_interval. Qed.
+(* rational intervals a/b: that k is chs_count a b = ceil(b/a) *)
+Theorem C19_chspline_k_rational : forall a b : Z, (0 < a)%Z -> (a < b)%Z ->
+  chs_kq (Z.to_nat (chs_count a b)) (IZR a / IZR b) /\
+  (forall j : nat, INR j * (IZR a / IZR b) < 1 <-> (j < Z.to_nat (chs_count a b))%nat).
+Proof. exact chs_count_is_sample_count. Qed.
+
+(* ------------------------------------------------------------------ bspline on SE3 itself *)
+(* [valid_SE3 X] = unit quaternion.  [se3_generic eps Z]: Z is the identity, or its quaternion is in the
+   generic regime of SO3_Log (|v| > eps and |w| > eps) - there Exp (Log Z) = Z exactly, up to the sign
+   of the quaternion when w < 0.  [se3_same X Y]: X = Y or X = (translation of Y, -quaternion of Y),
+   i.e. the same rigid transformation. *)
+Theorem C19_bspline_SE3_count : forall (eps : R) (k : nat) (q : R) (data : list se3R), q < 1 -> (4 <= length data)%nat ->
+  exists out, bspline_SE3 eps k q false data = Some out /\ length out = ((length data - 3) * k + 1)%nat.
+Proof. exact bspline_SE3_count. Qed.
+
+(* left-equivariance: EVERY list of valid poses, every eps, with and without extrapolation *)
+Theorem C19_bspline_SE3_left_equivariant : forall (eps : R) (k : nat) (q : R) (ex : bool) (g : se3R) (data : list se3R),
+  valid_SE3 g -> Forall valid_SE3 data ->
+  bspline_SE3 eps k q ex (map (SE3_mul g) data) = option_map (map (SE3_mul g)) (bspline_SE3 eps k q ex data).
+Proof. exact bspline_SE3_left_equivariant. Qed.
+
+(* extrapolate = True: the first sample IS the first pose (every valid list); the last sample is the last
+   pose when Z = (second-to-last pose)^-1 (last pose) is generic (same transformation; equal when w(Z) >= 0) *)
+Theorem C19_bspline_SE3_extrapolate_endpoints : forall (eps : R) (k : nat) (q : R) (data : list se3R) (a : se3R),
+  0 <= eps -> q < 1 -> (1 <= k)%nat -> data <> [] -> Forall valid_SE3 data ->
+  exists out, bspline_SE3 eps k q true data = Some out /\
+    nth 0 out a = hd a data /\
+    let Z := SE3_mul (SE3_inv (nth (length data - 2) data a)) (List.last data a) in
+    (se3_generic eps Z -> se3_same (List.last out a) (List.last data a) /\
+                          (0 <= qw (snd Z) -> List.last out a = List.last data a)).
+Proof. exact bspline_SE3_extrapolate_endpoints. Qed.
+
+(* continuity: when every consecutive relative pose is generic, the end (u = 1) of segment i is the same
+   transformation as output sample (i+1) k, the first sample of segment i+1 (equal when w >= 0); the end
+   of the last segment is the final sample *)
+Theorem C19_bspline_SE3_continuous : forall (eps : R) (k : nat) (q : R) (data : list se3R) (d : se3R),
+  0 <= eps -> q < 1 -> (4 <= length data)%nat -> (1 <= k)%nat -> Forall valid_SE3 data ->
+  (forall i, (i + 1 < length data)%nat -> se3_generic eps (SE3_mul (SE3_inv (nth i data d)) (nth (i + 1) data d))) ->
+  exists out, bspline_SE3 eps k q false data = Some out /\
+    (forall i, (i + 4 < length data)%nat ->
+       let e := bs_seg_SE3 eps (nth i data d, nth (i + 1) data d, nth (i + 2) data d, nth (i + 3) data d) (bs_w 1) in
+       se3_same e (nth ((i + 1) * k) out d) /\
+       (0 <= qw (snd (SE3_mul (SE3_inv (nth i data d)) (nth (i + 1) data d))) -> e = nth ((i + 1) * k) out d)) /\
+    bs_seg_SE3 eps (nth (length data - 4) data d, nth (length data - 3) data d, nth (length data - 2) data d,
+                    nth (length data - 1) data d) (bs_w 1) = nth ((length data - 3) * k) out d.
+Proof. exact bspline_SE3_continuous. Qed.
+Theorem C19_se3_same_is_same_matrix : forall X Y : se3R, se3_same X Y -> matrix4 SE3_act4 X = matrix4 SE3_act4 Y.
+Proof. exact se3_same_matrix. Qed.
+
+(* the model's se3_Exp is a one-parameter subgroup along every twist with rotation part above eps,
+   for parameters a, b that are 0 or put a phi on the closed-form branch (a |phi| > eps) *)
+Theorem C19_se3_exp_one_parameter_subgroup : forall (eps : R) (phi tau : vec3R) (a b : R), 0 <= eps -> eps < vnorm phi ->
+  (a = 0 \/ (0 < a /\ eps < a * vnorm phi)) -> (b = 0 \/ (0 < b /\ eps < b * vnorm phi)) ->
+  SE3_mul (se3_exp eps (se3_scale a (tau, phi))) (se3_exp eps (se3_scale b (tau, phi)))
+  = se3_exp eps (se3_scale (a + b) (tau, phi)).
+Proof. exact se3_exp_one_param. Qed.
+
+(* constant-twist motions on SE3: through T0 Exp(n xi), n = 0..N-1, xi = (tau, phi) with rotation angle
+   |phi| < pi in the generic regime and eps < q^3/6 |phi| (so that every weighted increment is on the
+   closed-form branch), sample (i, j) is T0 Exp((i + 1 + j q) xi) and the final sample T0 Exp((N-2) xi) *)
+Theorem C19_bspline_SE3_constant_twist : forall (eps : R) (k : nat) (q : R) (T0 : se3R) (tau phi : vec3R) (N : nat) (d : se3R),
+  0 <= eps -> chs_kq k q -> (4 <= N)%nat -> valid_SE3 T0 ->
+  vnorm phi < PI -> eps < sin (vnorm phi / 2) -> eps < cos (vnorm phi / 2) -> eps < q * q * q / 6 * vnorm phi ->
+  exists out, bspline_SE3 eps k q false (twist_path_SE3 eps T0 (tau, phi) N) = Some out /\
+    (forall i j, (i + 3 < N)%nat -> (j < k)%nat ->
+       nth (i * k + j) out d = SE3_mul T0 (se3_exp eps (se3_scale (INR i + 1 + INR j * q) (tau, phi)))) /\
+    nth ((N - 3) * k) out d = SE3_mul T0 (se3_exp eps (se3_scale (INR N - 2) (tau, phi))).
+Proof. exact bspline_SE3_constant_twist. Qed.
+
+(* ... and for pure translations xi = (tau, 0), the other closed family of se3_Exp: every q < 1, k, N >= 4 *)
+Theorem C19_bspline_SE3_constant_translation : forall (eps : R) (k : nat) (q : R) (T0 : se3R) (tau : vec3R) (N : nat) (d : se3R),
+  0 <= eps -> q < 1 -> (4 <= N)%nat -> valid_SE3 T0 ->
+  exists out, bspline_SE3 eps k q false (twist_path_SE3 eps T0 (tau, vzero) N) = Some out /\
+    (forall i j, (i + 3 < N)%nat -> (j < k)%nat ->
+       nth (i * k + j) out d = SE3_mul T0 (vscale (INR i + 1 + INR j * q) tau, SO3_id)) /\
+    nth ((N - 3) * k) out d = SE3_mul T0 (vscale (INR N - 2) tau, SO3_id).
+Proof. exact bspline_SE3_constant_translation. Qed.
+
+(* ------------------------------------------------------------------ statistics on every output *)
+Theorem C19_ape_stats_ordered : forall angleF rad2degF svdstf rstamp rpose estamp epose et diff off al sc origin s,
+  ape sqrt angleF rad2degF svdstf rstamp rpose estamp epose et diff off al sc origin = Some s ->
+  st_max s >= st_rmse s /\ st_rmse s >= st_mean s /\ st_mean s >= st_min s /\ st_min s >= 0.
+Proof. exact ape_stats_ordered. Qed.
+Theorem C19_rpe_stats_ordered : forall angleF rad2degF svdstf rstamp rpose estamp epose et diff off al sc origin
+    bd delta di rtol all rpair s,
+  rpe sqrt angleF rad2degF svdstf rstamp rpose estamp epose et diff off al sc origin bd delta di rtol all rpair = Some s ->
+  st_max s >= st_rmse s /\ st_rmse s >= st_mean s /\ st_mean s >= st_min s /\ st_min s >= 0.
+Proof. exact rpe_stats_ordered. Qed.
+
+(* ------------------------------------------------------------------ rpe / ape, part 2 *)
+(* rpe left-invariance also with origin alignment on *)
+Theorem C19_rpe_left_invariant_origin : forall angleF rad2degF svdstf (gr ge : se3R) rstamp rpose estamp epose
+    et diff off origin bd delta di rtol all rpair,
+  valid_SE3 gr -> valid_SE3 ge -> Forall valid_SE3 rpose -> Forall valid_SE3 epose ->
+  rpe sqrt angleF rad2degF svdstf rstamp (map (SE3_mul gr) rpose) estamp (map (SE3_mul ge) epose)
+      et diff off false false origin bd delta di rtol all rpair
+  = rpe sqrt angleF rad2degF svdstf rstamp rpose estamp epose et diff off false false origin bd delta di rtol all rpair.
+Proof. exact rpe_left_invariant_origin. Qed.
+
+(* rpe of a trajectory against itself RETURNS for frame pairing with 1 <= delta < number of poses, and
+   every statistic is 0 (C19_rpe_identical_zero is not vacuous) *)
+Theorem C19_rpe_identical_zero_frames : forall eps m2q svdstf st P tr et diff origin delta di rtol all rpair,
+  qv (m2q mid3) = vzero -> mk_stamped st P = Some tr -> NoDup (map fst tr) -> Forall valid_SE3 P -> 0 < diff ->
+  (1 <= di)%Z -> (Z.to_nat di < length P)%nat ->
+  exists s, rpe sqrt (angle_of eps m2q) rad2deg svdstf st P st P et diff 0 false false origin false delta di rtol all rpair = Some s /\
+            zero_stats s.
+Proof. intros. eapply rpe_identical_zero_frames; eauto using angle_of_id, rad2deg_0. Qed.
+
+(* partial: identical trajectories with SVD alignment on, GIVEN that the oracle aligns a cloud with itself
+   by the identity *)
+Theorem C19_ape_identical_zero_aligned_partial : forall eps m2q svdstf st P tr et diff al sc origin,
+  qv (m2q mid3) = vzero -> mk_stamped st P = Some tr -> NoDup (map fst tr) -> Forall valid_SE3 P -> 0 < diff ->
+  svdstf (map fst P) (map fst P) sc = Sim3_id ->
+  exists s, ape sqrt (angle_of eps m2q) rad2deg svdstf st P st P et diff 0 al sc origin = Some s /\ zero_stats s.
+Proof. intros. eapply ape_identical_zero_aligned; eauto using angle_of_id, rad2deg_0. Qed.
+
+(* REFUTED without the hypothesis of distinct stamps: StampedSE3 accepts repeated (ascending) stamps,
+   association pairs both poses of a repeated stamp with the first one, and ape of the trajectory
+   [identity; translation by (1,0,0)] with stamps [0; 0] against itself has Max = 1 *)
+Theorem C19_ape_identical_duplicate_stamps_refuted : forall (angleF : @mat3 R -> R) (rad2degF : R -> R)
+    (svdstf : list vec3R -> list vec3R -> bool -> sim3R),
+  exists (st : option (list R)) (P : list se3R) (tr : list (R * se3R)) (s : @stats R),
+    mk_stamped st P = Some tr /\ Forall valid_SE3 P /\
+    ape sqrt angleF rad2degF svdstf st P st P Etrans 1 0 false false false = Some s /\ st_max s = 1 /\ ~ zero_stats s.
+Proof. exact ape_identical_duplicate_stamps_refuted. Qed.
+
+(* with the svdstf MODEL of C17 (Model/Align.v) in place of an abstract oracle: when the estimate is an
+   exact similarity copy S . reference, ape with scale = True has all translation-error statistics 0, for
+   every similarity S - relative only to the contract of torch.linalg.svd on the one matrix it is called
+   with, a non-degenerate cloud and mat2Sim3's scale threshold (no uniqueness assumption) *)
+Theorem C19_ape_similarity_copy_zero : forall (svd : mat3R -> mat3R * vec3R * mat3R) angleF rad2degF
+    st (P : list se3R) tr (S : sim3R) diff al origin,
+  mk_stamped st P = Some tr -> NoDup (map fst tr) -> Forall valid_SE3 P -> 0 < diff -> valid_Sim3 S ->
+  let src := map fst (map (align_pose S) P) in
+  let tgt := map fst P in
+  svd_contract svd (svdstf_H src tgt) -> 0 < Proofs.Align.sumsq (centered src) ->
+  (let '(U, D, V) := svd (svdstf_H src tgt) in 1 / 100000 < fst (fst (svdstf_mat true src tgt U D V))) ->
+  exists s, ape sqrt angleF rad2degF (svd_oracle svd) st P st (map (align_pose S) P) Etrans diff 0 al true origin = Some s /\
+            zero_stats s.
+Proof. exact ape_similarity_copy_zero. Qed.
+
+(* the rigid counterpart: align = True, scale = False, the estimate an exact RIGID copy (S of scale 1):
+   zero translation-error statistics, relative only to the SVD contract (no non-degeneracy needed) *)
+Theorem C19_ape_rigid_copy_zero : forall (svd : mat3R -> mat3R * vec3R * mat3R) angleF rad2degF
+    st (P : list se3R) tr (S : sim3R) diff origin,
+  mk_stamped st P = Some tr -> NoDup (map fst tr) -> Forall valid_SE3 P -> 0 < diff ->
+  unitq (fst (snd S)) -> snd (snd S) = 1 ->
+  let src := map fst (map (align_pose S) P) in
+  let tgt := map fst P in
+  svd_contract svd (svdstf_H src tgt) ->
+  exists s, ape sqrt angleF rad2degF (svd_oracle svd) st P st (map (align_pose S) P) Etrans diff 0 true false origin = Some s /\
+            zero_stats s.
+Proof. exact ape_rigid_copy_zero. Qed.
+
+(* partial: alignment invariance with a satisfiable contract - the oracle's equivariance is assumed only
+   on the clouds Q on which its answer is unique, and every associated cloud pair must be in Q *)
+Theorem C19_ape_align_invariant_guarded_partial : forall angleF rad2degF svdstf (S : sim3R) (sc : bool)
+    (Q : list vec3R -> list vec3R -> Prop),
+  valid_Sim3 S ->
+  (forall ets rts, unitq (fst (snd (svdstf ets rts sc)))) ->
+  (forall ets rts, Q ets rts -> svdstf (map (Sim3_act S) ets) rts sc = Sim3_mul (svdstf ets rts sc) (Sim3_inv S)) ->
+  forall rstamp rpose estamp epose et diff off al origin, (al || sc)%bool = true ->
+  (forall rt etr rp ep, mk_stamped rstamp rpose = Some rt -> mk_stamped estamp epose = Some etr ->
+     associate rt etr diff off = Some (rp, ep) -> Q (map fst ep) (map fst rp)) ->
+  ape sqrt angleF rad2degF svdstf rstamp rpose estamp (map (align_pose S) epose) et diff off al sc origin
+  = ape sqrt angleF rad2degF svdstf rstamp rpose estamp epose et diff off al sc origin.
+Proof. intros angleF rad2degF svdstf S sc Q HS Hv He. exact (ape_align_invariant_guarded angleF rad2degF svdstf S sc Q HS Hv He). Qed.
+(* with Q = "non-empty source cloud", which always holds inside ape *)
+Theorem C19_ape_align_invariant_nonempty_partial : forall angleF rad2degF svdstf (S : sim3R) (sc : bool),
+  valid_Sim3 S ->
+  (forall ets rts, unitq (fst (snd (svdstf ets rts sc)))) ->
+  (forall ets rts, ets <> [] -> svdstf (map (Sim3_act S) ets) rts sc = Sim3_mul (svdstf ets rts sc) (Sim3_inv S)) ->
+  forall rstamp rpose estamp epose et diff off al origin, (al || sc)%bool = true ->
+  ape sqrt angleF rad2degF svdstf rstamp rpose estamp (map (align_pose S) epose) et diff off al sc origin
+  = ape sqrt angleF rad2degF svdstf rstamp rpose estamp epose et diff off al sc origin.
+Proof. exact ape_align_invariant_nonempty. Qed.
+(* the unguarded contract of C19_ape_align_invariant_partial only holds for S = identity *)
+Theorem C19_ape_align_unguarded_contract_forces_identity :
+  forall (svdstf : list vec3R -> list vec3R -> bool -> sim3R) (S : sim3R) (sc : bool),
+  valid_Sim3 S ->
+  (forall ets rts, unitq (fst (snd (svdstf ets rts sc)))) ->
+  (forall ets rts, svdstf (map (Sim3_act S) ets) rts sc = Sim3_mul (svdstf ets rts sc) (Sim3_inv S)) ->
+  snd (snd (svdstf [] [] sc)) <> 0 -> S = Sim3_id.
+Proof. exact unguarded_contract_forces_identity. Qed.
+
+(* ------------------------------------------------------------------ geodesic loss, part 2 *)
+(* [geodesic_angle x y] (= 2 atan(|v| / |w|) of q = x y^-1, pi when w = 0) is THE rotation angle between
+   x and y: it lies in [0, pi], its cosine is (trace R(q) - 1) / 2, and it is the only such angle.  The
+   loss equals it in the generic regime and is within 3 eps of it for EVERY pair of unit quaternions *)
+Theorem C19_geodesic_is_rotation_angle_all : forall (eps : R) (x y : quatR), 0 <= eps <= 1 / 2 -> unitq x -> unitq y ->
+  let q := SO3_mul x (SO3_inv y) in
+  (0 <= geodesic_angle x y <= PI /\ cos (geodesic_angle x y) = (m3trace (SO3_matrix q) - 1) / 2) /\
+  Rabs (geodesic_theta eps x y - geodesic_angle x y) <= 3 * eps /\
+  (eps < vnorm (qv q) -> eps < Rabs (qw q) -> geodesic_theta eps x y = geodesic_angle x y).
+Proof. exact geodesic_theta_is_angle_all. Qed.
+Theorem C19_rotation_angle_unique : forall a b : R, 0 <= a <= PI -> 0 <= b <= PI -> cos a = cos b -> a = b.
+Proof. exact angle_unique. Qed.
+(* under each reduction: entry-wise ('none'), mean of the angles ('mean'), sum of the angles ('sum') *)
+Theorem C19_geodesic_loss_is_angle : forall (eps : R) red (xs ys : list quatR),
+  0 <= eps <= 1 / 2 -> Forall unitq xs -> Forall unitq ys -> combine xs ys <> [] ->
+  Forall2 (fun v a => Rabs (v - a) <= match red with Rsum => INR (length (combine xs ys)) * (3 * eps) | _ => 3 * eps end)
+          (geodesic_loss eps red xs ys) (reduceR red (geodesic_angles xs ys)).
+Proof. exact geodesic_loss_is_angle. Qed.
+(* on SE3 arguments the loss is the norm of the rotation part of Log (X Y^-1) *)
+Theorem C19_geodesic_SE3 : forall (eps : R) (X Y : se3R),
+  geodesic_theta eps (snd X) (snd Y) = vnorm (snd (SE3_log eps (SE3_mul X (SE3_inv Y)))).
+Proof. exact geodesic_theta_SE3. Qed.
+
+(* ------------------------------------------------------------------ the hypotheses of part 2 are satisfiable *)
+(* SE3 path [id; B; id; B; id], B = translation (1,2,3) and rotation 2 atan(3/4) about x: valid, every
+   consecutive relative pose generic for the float64 eps (both hemispheres occur) *)
+Example C19_bspline_SE3_hyps_example :
+  0 <= eps_f64 /\ Forall valid_SE3 demo_path /\
+  (forall i, (i + 1 < length demo_path)%nat ->
+     se3_generic eps_f64 (SE3_mul (SE3_inv (nth i demo_path SE3_id)) (nth (i + 1) demo_path SE3_id))) /\
+  0 <= qw (snd (SE3_mul (SE3_inv (nth 0 demo_path SE3_id)) (nth 1 demo_path SE3_id))).
+Proof. exact demo_path_ok. Qed.
+Example C19_bspline_SE3_twist_hyps_example :
+  let phi : vec3R := (1, 0, 0) in let q := 1 / 10 in
+  0 <= eps_f64 /\ chs_kq 10 q /\ valid_SE3 SE3_id /\ vnorm phi < PI /\ eps_f64 < sin (vnorm phi / 2) /\
+  eps_f64 < cos (vnorm phi / 2) /\ eps_f64 < q * q * q / 6 * vnorm phi.
+Proof. exact twist_hyps_ok. Qed.
+(* the guarded alignment contract holds for a non-trivial S (translation) and a toy oracle *)
+Example C19_ape_align_contract_example :
+  valid_Sim3 shiftS /\ shiftS <> Sim3_id /\
+  (forall ets rts sc, unitq (fst (snd (toy_svdstf ets rts sc)))) /\
+  (forall ets rts sc, ets <> [] ->
+     toy_svdstf (map (Sim3_act shiftS) ets) rts sc = Sim3_mul (toy_svdstf ets rts sc) (Sim3_inv shiftS)).
+Proof. exact toy_contract. Qed.
+(* six poses on the coordinate axes, the estimate = the copy scaled by 2, the SVD of the diagonal
+   cross-covariance: every hypothesis of C19_ape_similarity_copy_zero holds, with S <> identity *)
+Example C19_ape_similarity_copy_hyps_example :
+  let st := Some [0; 1; 2; 3; 4; 5] in
+  let tr := combine [0; 1; 2; 3; 4; 5] P6 in
+  let src := map fst (map (align_pose S2) P6) in
+  let tgt := map fst P6 in
+  mk_stamped st P6 = Some tr /\ NoDup (map fst tr) /\ Forall valid_SE3 P6 /\ valid_Sim3 S2 /\ S2 <> Sim3_id /\
+  svd_contract svd6 (svdstf_H src tgt) /\ 0 < Proofs.Align.sumsq (centered src) /\
+  (let '(U, D, V) := svd6 (svdstf_H src tgt) in 1 / 100000 < fst (fst (svdstf_mat true src tgt U D V))).
+Proof. exact similarity_copy_hyps_ok. Qed.
+Example C19_ape_rigid_copy_hyps_example :
+  unitq (fst (snd S1)) /\ snd (snd S1) = 1 /\ S1 <> Sim3_id /\
+  svd_contract svd6r (svdstf_H (map fst (map (align_pose S1) P6)) (map fst P6)).
+Proof. exact rigid_copy_hyps_ok. Qed.
+Example C19_geodesic_angle_examples :
+  geodesic_angle ((1, 0, 0), 0) SO3_id = PI /\ geodesic_angle ((3 / 5, 0, 0), 4 / 5) SO3_id = 2 * atan (3 / 4).
+Proof. exact geodesic_angle_examples. Qed.
+(* default stamps 0, 1, ... are distinct: the hypotheses of the zero-statistics theorems hold *)
+Example C19_identical_hyps_example :
+  mk_stamped (F:=R) None [SE3_id; SE3_id; SE3_id] = Some [(0, SE3_id); (1, SE3_id); (1 + 1, SE3_id)] /\
+  NoDup [0; 1; 1 + 1] /\ Forall valid_SE3 [SE3_id (F:=R); SE3_id; SE3_id].
+Proof.
+  split; [|split].
+  - unfold mk_stamped. cbn [length Nat.eqb negb zrange map sortedb].
+    replace (leb (ofZ 0) (ofZ (0 + 1))) with true by (symmetry; cbn; apply Rleb_true; lra).
+    replace (leb (ofZ (0 + 1)) (ofZ (0 + 1 + 1))) with true by (symmetry; cbn; apply Rleb_true; lra).
+    cbn [andb negb combine]. cbn. repeat f_equal; lra.
+  - repeat constructor; cbn; intuition lra.
+  - repeat constructor; apply unitq_id.
+Qed.
+
+Print Assumptions C19_chspline_k_exists_unique. Print Assumptions C19_chspline_count_every_interval.
+Print Assumptions C19_chspline_k_rational. Print Assumptions C19_bspline_SE3_count.
+Print Assumptions C19_bspline_SE3_left_equivariant. Print Assumptions C19_bspline_SE3_extrapolate_endpoints.
+Print Assumptions C19_bspline_SE3_continuous. Print Assumptions C19_se3_same_is_same_matrix.
+Print Assumptions C19_se3_exp_one_parameter_subgroup. Print Assumptions C19_bspline_SE3_constant_twist.
+Print Assumptions C19_bspline_SE3_constant_translation.
+Print Assumptions C19_ape_stats_ordered. Print Assumptions C19_rpe_stats_ordered.
+Print Assumptions C19_rpe_left_invariant_origin. Print Assumptions C19_rpe_identical_zero_frames.
+Print Assumptions C19_ape_identical_zero_aligned_partial. Print Assumptions C19_ape_identical_duplicate_stamps_refuted.
+Print Assumptions C19_ape_similarity_copy_zero. Print Assumptions C19_ape_rigid_copy_zero. Print Assumptions C19_ape_align_invariant_guarded_partial. Print Assumptions C19_ape_align_invariant_nonempty_partial.
+Print Assumptions C19_ape_align_unguarded_contract_forces_identity. Print Assumptions C19_geodesic_is_rotation_angle_all.
+Print Assumptions C19_rotation_angle_unique. Print Assumptions C19_geodesic_loss_is_angle. Print Assumptions C19_geodesic_SE3.
